@@ -9,63 +9,67 @@
 EXTENDS EcCurves, Json
 CONSTANTS CurveNames,        \* which curves of Curves8 to enumerate in this run
           Heavy              \* TRUE: also full double-and-add agreement and associativity with 3 fixed points
-VARIABLES c, i, pts, row
-vars == << c, i, pts, row >>
+VARIABLES vCurve, vIdx, vPts, vRow
+vars == << vCurve, vIdx, vPts, vRow >>
 
 KMax(cv) == LET o == Order(cv) + 1  lim == Pow2(cv.m) - 1 IN IF o < lim THEN o ELSE lim
 Row(cv, ps, idx) ==
-   LET P == ps[idx]  N == Len(ps) IN
-   [ add  |-> [j \in 1..N |-> Add(cv, P, ps[j])],
-     sub  |-> [j \in 1..N |-> Sub(cv, P, ps[j])],
-     mul  |-> MulTable(cv, P, KMax(cv)),
-     dbl  |-> Dbl(cv, P),
-     dbln |-> [j \in 1..(cv.m + 1) |-> DblN(cv, P, j)] ]
+   LET pp == ps[idx]  np == Len(ps) IN
+   [ add  |-> [j \in 1..np |-> Add(cv, pp, ps[j])],
+     sub  |-> [j \in 1..np |-> Sub(cv, pp, ps[j])],
+     mul  |-> MulTable(cv, pp, KMax(cv)),
+     dbl  |-> Dbl(cv, pp),
+     dbln |-> [j \in 1..(cv.m + 1) |-> DblN(cv, pp, j)] ]
 
-Init == /\ c \in { CurveByName(nm) : nm \in CurveNames }
-        /\ i = 1
-        /\ pts = GroupSeq(c)
-        /\ row = Row(c, pts, 1)
-Step == /\ i < Len(pts)
-        /\ i' = i + 1
-        /\ row' = Row(c, pts, i + 1)
-        /\ UNCHANGED << c, pts >>
+Init == /\ vCurve \in { CurveByName(nm) : nm \in CurveNames }
+        /\ vIdx = 1
+        /\ vPts = GroupSeq(vCurve)
+        /\ vRow = Row(vCurve, vPts, 1)
+Step == /\ vIdx < Len(vPts)
+        /\ vIdx' = vIdx + 1
+        /\ vRow' = Row(vCurve, vPts, vIdx + 1)
+        /\ UNCHANGED << vCurve, vPts >>
 Next == Step
 Spec == Init /\ [][Next]_vars
 
-P == pts[i]
-N == Len(pts)
+CurP == vPts[vIdx]
+NPts == Len(vPts)
 (* ---- what TLC checks on the reference itself, for every state *)
-WholeGroup == N = Order(c) /\ pts[1] = Inf                       \* rows range over all #E points
-Closed     == /\ \A j \in 1..N : OnCurve(c, row.add[j]) /\ OnCurve(c, row.sub[j])
-              /\ \A k \in 1..Len(row.mul) : OnCurve(c, row.mul[k])
-              /\ OnCurve(c, row.dbl) /\ \A j \in 1..(c.m + 1) : OnCurve(c, row.dbln[j])
-Commutes   == \A j \in 1..N : row.add[j] = Add(c, pts[j], P)
-SubUndoes  == \A j \in 1..N : Add(c, row.sub[j], pts[j]) = P
-Neutral    == /\ row.add[1] = P /\ row.sub[1] = P                \* Q_1 = Inf
-              /\ row.add[i] = row.dbl /\ row.sub[i] = Inf        \* Q_i = P:  P + P = 2P,  P - P = Inf
-              /\ Add(c, P, Neg(c, P)) = Inf /\ Add(c, Inf, P) = P
-MulCorners == LET n == Order(c) IN
-              /\ row.mul[1] = Inf /\ row.mul[2] = P /\ row.mul[3] = row.dbl
-              /\ (n <= KMax(c) => row.mul[n + 1] = Inf /\ row.mul[n] = Neg(c, P))      \* Lagrange
-              /\ (n + 1 <= KMax(c) => row.mul[n + 2] = P)
-              /\ \A k \in {0, 1, 2, 3, i, c.n - 1, c.n, KMax(c)} : Mul(c, k, P) = row.mul[k + 1]
-DblNIsMul  == \A j \in 1..(c.m + 1) :
-                 row.dbln[j] = (IF Pow2(j) <= KMax(c) THEN row.mul[Pow2(j) + 1] ELSE Mul(c, Pow2(j), P))
-MulAgrees  == Heavy => \A k \in 0..KMax(c) : Mul(c, k, P) = row.mul[k + 1]           \* double-and-add = k-fold sum
-Assoc      == Heavy => \A j \in 1..N : \A R \in { G(c), T(c), Neg(c, P) } :
-                 Add(c, row.add[j], R) = Add(c, P, Add(c, pts[j], R))
+WholeGroup == NPts = Order(vCurve) /\ vPts[1] = Inf                       \* rows range over all #E points
+Closed     == /\ \A j \in 1..NPts : OnCurve(vCurve, vRow.add[j]) /\ OnCurve(vCurve, vRow.sub[j])
+              /\ \A k \in 1..Len(vRow.mul) : OnCurve(vCurve, vRow.mul[k])
+              /\ OnCurve(vCurve, vRow.dbl) /\ \A j \in 1..(vCurve.m + 1) : OnCurve(vCurve, vRow.dbln[j])
+Commutes   == \A j \in 1..NPts : vRow.add[j] = Add(vCurve, vPts[j], CurP)
+SubUndoes  == \A j \in 1..NPts : Add(vCurve, vRow.sub[j], vPts[j]) = CurP
+Neutral    == /\ vRow.add[1] = CurP /\ vRow.sub[1] = CurP                \* Q_1 = Inf
+              /\ vRow.add[vIdx] = vRow.dbl /\ vRow.sub[vIdx] = Inf        \* Q_i = P:  P + P = 2P,  P - P = Inf
+              /\ Add(vCurve, CurP, Neg(vCurve, CurP)) = Inf /\ Add(vCurve, Inf, CurP) = CurP
+MulCorners == LET n == Order(vCurve) IN
+              /\ vRow.mul[1] = Inf /\ vRow.mul[2] = CurP /\ vRow.mul[3] = vRow.dbl
+              /\ (n <= KMax(vCurve) => vRow.mul[n + 1] = Inf /\ vRow.mul[n] = Neg(vCurve, CurP))      \* Lagrange
+              /\ (n + 1 <= KMax(vCurve) => vRow.mul[n + 2] = CurP)
+              /\ \A k \in {0, 1, 2, 3, vIdx, vCurve.n - 1, vCurve.n, KMax(vCurve)} : Mul(vCurve, k, CurP) = vRow.mul[k + 1]
+DblNIsMul  == \A j \in 1..(vCurve.m + 1) :
+                 vRow.dbln[j] = (IF Pow2(j) <= KMax(vCurve) THEN vRow.mul[Pow2(j) + 1] ELSE Mul(vCurve, Pow2(j), CurP))
+MulAgrees  == Heavy => \A k \in 0..KMax(vCurve) : Mul(vCurve, k, CurP) = vRow.mul[k + 1]           \* double-and-add = k-fold sum
+Assoc      == Heavy => \A j \in 1..NPts : \A R \in { G(vCurve), T(vCurve), Neg(vCurve, CurP) } :
+                 Add(vCurve, vRow.add[j], R) = Add(vCurve, CurP, Add(vCurve, vPts[j], R))
 
 \* the division-free relations of EcRel (used at full size for the built-in curves) describe the same law:
 \* the EcGroup point satisfies them and a different point of the group does not
 NatLess(u, v) == u < v
 Rel == INSTANCE EcRel WITH MulM <- MulMod, AddM <- AddMod, SubM <- SubMod, Less <- NatLess,
                            Zero <- 0, Two <- 2, Three <- 3
-RelAgrees  == /\ \A j \in 1..N : /\ Rel!AddR(c, P, pts[j], row.add[j]) /\ Rel!SubR(c, P, pts[j], row.sub[j])
-                                 /\ ~Rel!AddR(c, P, pts[j], row.add[(j % N) + 1]) \/ row.add[(j % N) + 1] = row.add[j]
-                                 /\ ~Rel!SubR(c, P, pts[j], pts[j]) \/ row.sub[j] = pts[j]
-              /\ Rel!DblR(c, P, row.dbl) /\ Rel!NegR(c, P, Neg(c, P)) /\ Rel!OnCurveR(c, P)
-              /\ \A j \in 1..N : Rel!DblR(c, P, pts[j]) <=> pts[j] = row.dbl          \* exactly one solution
+RelAgrees  ==
+   /\ \A j \in 1..NPts :
+         LET other == vRow.add[(j % NPts) + 1] IN
+         /\ Rel!AddR(vCurve, CurP, vPts[j], vRow.add[j])
+         /\ Rel!SubR(vCurve, CurP, vPts[j], vRow.sub[j])
+         /\ (Rel!AddR(vCurve, CurP, vPts[j], other) => other = vRow.add[j])
+         /\ (Rel!SubR(vCurve, CurP, vPts[j], vPts[j]) => vRow.sub[j] = vPts[j])
+   /\ Rel!DblR(vCurve, CurP, vRow.dbl) /\ Rel!NegR(vCurve, CurP, Neg(vCurve, CurP)) /\ Rel!OnCurveR(vCurve, CurP)
+   /\ \A j \in 1..NPts : Rel!DblR(vCurve, CurP, vPts[j]) <=> vPts[j] = vRow.dbl          \* exactly one solution
 
-Emit == PrintT(ToJson([gen |-> "pairs", curve |-> c, idx |-> i, P |-> P, Q |-> pts,
-                       add |-> row.add, sub |-> row.sub, mul |-> row.mul, dbl |-> row.dbl, dbln |-> row.dbln]))
+Emit == PrintT(ToJson([gen |-> "pairs", curve |-> vCurve, idx |-> vIdx, P |-> CurP, Q |-> vPts,
+                       add |-> vRow.add, sub |-> vRow.sub, mul |-> vRow.mul, dbl |-> vRow.dbl, dbln |-> vRow.dbln]))
 =============================================================================
